@@ -1,5 +1,6 @@
 import ClaripyProofs.Lemmas.Solver.Independent
 import ClaripyProofs.Lemmas.Solver.Extrema
+import ClaripyProofs.Lemmas.Solver.CompositeHistory
 /-!
 # C12 — SolverComposite answers like a monolithic solver
 
@@ -45,13 +46,98 @@ example : DisjointVars [{ id := 1, vars := [0], sem := fun a => decide (a 0 < 3)
                        [{ id := 2, vars := [1], sem := fun a => decide (a 1 = 6) }] := by
   intro v hv; simp [varsOf] at hv ⊢; subst hv; decide
 
-/-- The full statement (not yet proved): the composite bookkeeping (`_solvers`, copy-on-write `_claim`, merging
-of children, `_reabsorb_solver`) maintains a variable-disjoint partition whose union is equivalent to the added
-constraints, hence (with the theorems above and C11 per child) every answer is one `Judge` allows. -/
-def C12_full : Prop :=
-  ∀ (A B : List Con), (∀ c ∈ A, ConWf c) → (∀ c ∈ B, ConWf c) → DisjointVars A B →
-    (Satisfiable (A ++ B) ↔ Satisfiable A ∧ Satisfiable B)
+/-! ### the bookkeeping of the composite
 
-theorem C12_partial : C12_full := fun _ _ wfA wfB hd => satisfiable_append_iff wfA wfB hd
+`Claripy/Solver/Composite.lean` transcribes class `CompositeFrontend` (`_solvers`, `_unchecked_solvers`, `_owned_solvers`, `_unsat`,
+`_solver_for_names`, `_claim`, `_store_child`, `_add`, `check_satisfiability`, the queries with `_reabsorb_solver`, `simplify` with
+`_split_child`, `branch`, pickling) over a world of SolverCompositeChild frontends (the C11 model), with what the child class has
+beyond the `Ops` table (`combine`, `split`, `update`, `check_satisfiability`).  `CInv` is its invariant. -/
+
+variable {E : Env} {R : Con → Prop} {RE : Exp → Prop}
+
+/-- **the children partition the composite's constraints into variable-disjoint groups.**  Whenever the invariant holds:
+two different children that `_solvers` points to know no common variable; every constraint a child holds mentions variables of
+that child only; and (unless `_unsat` is set, in which case the user's constraints are unsatisfiable) an assignment satisfies
+what the user added iff it satisfies the constraints held by every child. -/
+theorem C12_children_partition {U : List Con} {Us : List (List Con)} {s : CSt} (h : CInv R RE E U Us s) :
+    (∀ i ∈ s.c.solverList, ∀ j ∈ s.c.solverList, i ≠ j → ∀ v ∈ (s.child i).variables, v ∉ (s.child j).variables) ∧
+    (∀ j ∈ s.c.solverList, ∀ c ∈ (s.child j).constraints, ∀ v ∈ c.vars, v ∈ (s.child j).variables) ∧
+    (s.c.unsat = false → ∀ a, Models U a ↔ ∀ j ∈ s.c.solverList, Models (s.child j).constraints a) ∧
+    (s.c.unsat = true → ¬ Satisfiable U) := by
+  have hlt : ∀ j ∈ s.c.solverList, j < s.w.fes.length := by
+    intro j hj
+    obtain ⟨v, hv⟩ := (mem_solverList' _ h.nodup j).mp hj
+    exact (h.map v j hv).1
+  refine ⟨fun i hi j hj hij => h.disjoint hi hj hij, fun j hj => h.child_vars (hlt j hj), fun hu a => ?_, h.unsatOk⟩
+  rw [h.sem hu a]
+  exact ⟨fun ha j hj => (h.child_models (hlt j hj) a).mpr (ha j hj), fun ha j hj => (h.child_models (hlt j hj) a).mp (ha j hj)⟩
+
+/-- the empty composite satisfies the invariant -/
+theorem C12_invariant_init (track : Bool) : CInv R RE E [] [] { c := { track := track }, w := { fes := [] } } :=
+  cinv_init R RE E track
+
+/-- **`add` keeps the partition** (`CompositeFrontend._add`: the new constraints are split into independent groups; for each group
+the children owning one of its variables are found (`_solver_for_names`: the closure loop finds exactly those), merged, claimed
+copy-on-write, given the constraints and stored, `_store_child` re-pointing every variable of the child; a concretely false
+constraint sets `_unsat`).  `hC` is the specification of `combine` (the merged child) — see `C12_full`. -/
+theorem C12_add_keeps_partition (H : SolverHyps R RE E) (hC : CombineSpec R RE E) {U : List Con} {Us : List (List Con)} {s : CSt}
+    (h : CInv R RE E U Us s) (cs : List Con) (hcs : ∀ c ∈ cs, R c) (hconc : ∀ c ∈ cs, c.vars = [] → c.conc ≠ none) :
+    ∃ added Us' s', compAdd E cs s = (.ok added, s') ∧ CInv R RE E (U ++ cs) Us' s' :=
+  compAdd_spec H (childFoot H) hC h cs hcs hconc
+
+/-- the step for one independent group (`_add_dependent_constraints`): the children owning a variable of the group are replaced
+by one child holding their constraints and the new ones; the other children are not touched -/
+theorem C12_add_dependent_keeps_partition (H : SolverHyps R RE E) (hC : CombineSpec R RE E) {U : List Con}
+    {Us : List (List Con)} {s : CSt} (h : CInv R RE E U Us s) (names : List Var) (cs : List Con) (hcs : ∀ c ∈ cs, R c)
+    (hcv : ∀ c ∈ cs, ∀ v ∈ c.vars, v ∈ names) (hne : cs ≠ []) (hvne : ∀ c ∈ cs, c.vars ≠ []) :
+    ∃ added Us' s', addDependent E names cs s = (.ok added, s') ∧ (∀ c ∈ added, c ∈ cs) ∧ CInv R RE E (U ++ cs) Us' s' :=
+  addDependent_spec H (childFoot H) hC h names cs hcs hcv hne hvne
+
+/-- **`satisfiable()` answers for the whole constraint list** (no extra constraints): the unchecked children are asked one by one
+(`check_satisfiability` of the child class: cached verdict, trivial-constraint shortcut, backend); independent children have a
+joint model (`children_joint_model`, the n-ary form of `C12_independent_sat`), so the composite is satisfiable iff all are -/
+theorem C12_satisfiable_correct (H : SolverHyps R RE E) {U : List Con} {Us : List (List Con)} {s : CSt}
+    (h : CInv R RE E U Us s) :
+    match compSatisfiable E [] s with
+    | (.ok b, s') => (b = true ↔ Satisfiable U) ∧ CInv R RE E U Us s'
+    | (.error e, s') => IsGiveUp E e ∧ CInv R RE E U Us s' :=
+  compSatisfiable_spec H (childFoot H) h
+
+/-- the children's footprint the bookkeeping relies on (their queries never change `variables` / `constraints`; cached models
+mention the child's variables only) -/
+theorem C12_child_footprint (H : SolverHyps R RE E) : ChildFoot R RE E := childFoot H
+
+/-- **histories of `add` / `satisfiable()`** on one CompositeFrontend, from the empty one: every answer is the one the property
+statement demands for ALL the constraints added so far (or an honest give-up of a child's backend) -/
+theorem C12_composite_partial (H : SolverHyps R RE E) (hC : CombineSpec R RE E) (track : Bool) (hist : List Op)
+    (hok : ∀ op ∈ hist, InScopeCP R op) :
+    ∀ x ∈ runComp E { c := { track := track }, w := { fes := [] } } [] hist, JudgeOrGiveUp E x.1 x.2.1 x.2.2 :=
+  comp_hist H hC hist _ _ _ (cinv_init R RE E track) hok
+
+/-- non-vacuity: the hypotheses hold in the consistent environment of C11 (there no two children can own names, so `combine`
+is never reached), for a history that constrains, asks, pins, asks, adds a concretely false constraint, asks -/
+example : SolverHyps cR cRE cEnv ∧ CombineSpec cR cRE cEnv ∧ ∀ op ∈ cCompHist, InScopeCP cR op :=
+  ⟨cHyps, cCombineSpec, cCompHist_ok⟩
+
+example : ∀ x ∈ runComp cEnv { c := {}, w := { fes := [] } } [] cCompHist, JudgeOrGiveUp cEnv x.1 x.2.1 x.2.2 :=
+  C12_composite_partial cHyps cCombineSpec false cCompHist cCompHist_ok
+
+/-- **The full statement**: every history of public calls on a CompositeFrontend (hence, with the mixin layers of C11 on top, on
+a SolverComposite) is answered as the property statement demands for all the constraints added.  Proved: `C12_composite_partial`
+(add, satisfiable()), given `CombineSpec`.  Missing:
+  * `CombineSpec` itself — `combine` of ModelCacheMixin over ConstrainedFrontend builds the merged child when a constraint connects
+    several children: the constraint part is `add` on a blank copy (covered by `child_add_spec`), the cache part stores products of
+    the children's models, whose validity needs the cached models to be dicts (one entry per variable) with keys inside
+    `variables` (`KeysInv` is proved, key uniqueness is not an invariant of the C11 proof yet);
+  * the queries other than `satisfiable()` (eval, batch_eval, min, max, solution, is_true/is_false) and extra constraints: the
+    child's answer is right by `C11_child_step` and transfers by `C12_query_component` / `C12_optimum_component`; what is missing is
+    `_reabsorb_solver` (`split` / `update` of the temporary merged child);
+  * `simplify` (a child's `variables` may keep a variable its constraints lost: `ExactVars` fails, see design_notes/C12.md),
+    `branch` / pickling of the composite (children shared copy-on-write between composites);
+  * the mixins of class SolverComposite above CompositeFrontend, CompositedCacheMixin among them. -/
+def C12_full : Prop :=
+  ∀ (E : Env) (R : Con → Prop) (RE : Exp → Prop), SolverHyps R RE E → ∀ (track : Bool) (hist : List Op),
+    (∀ op ∈ hist, InScopeS R RE op ∧ op ≠ .branch) →
+    ∀ x ∈ runComp E { c := { track := track }, w := { fes := [] } } [] hist, JudgeOrGiveUp E x.1 x.2.1 x.2.2
 
 end Claripy.Props.C12
